@@ -5,6 +5,8 @@ import Abmarl.Lemmas.ReachMoves
 import Abmarl.Lemmas.ReachAttacks
 import Abmarl.Lemmas.ReachObs
 import Abmarl.Lemmas.ReachNoRaise
+import Abmarl.Lemmas.ReachHeal
+import Abmarl.Lemmas.ReachHist
 /-!
 # `ReachTheTargetSim`: what holds of the theorem set of the packaged examples, and what does not
 
@@ -42,15 +44,29 @@ Proved here (every grid, agent mix, overlap table, attack mapping, tape, history
   position returns a dict whose only channel is `position_centered_encoding`, inside the declared space (transported
   from the `WInv` theorem through `RT.heal`, Lemmas/ReachObs.lean: the observer never reads health).
 
-* **C02, actions** `reach_step_noRaise_WInv`, `reach_first_step_noRaise`: a `step` whose items are points of the declared
-  action spaces of learning agents does not raise when it starts in a `WInv` world — in particular the first step of every
-  episode (the situation of R1), whatever the object went through before.
+* **C02, actions** `reach_stepMustNotRaise_returns`: for EVERY world, reward dict, action dict and tape, if the judge's Boolean
+  `RT.stepMustNotRaise` holds (a `WInvWeak` world, items in the declared action spaces of learning agents, a full reward dict)
+  `step` returns — no `WInv`.  `reach_step_noRaise`: hence in every state reached by any history of resets, steps (ANY action
+  dicts) and getter calls; `reach_simIface_step_returns`: and in every state the managers reach through the `SimIface` instance
+  (its totalisation is never used).  The lemma that was missing: `RT.processAttack_ok_weak` (Lemmas/ReachHeal.lean) —
+  `process_action` of EVERY attack actor returns for an in-space action in a `WInvWeak` world: `RT.processAttack_heal` shows
+  that the call commutes with `RT.heal` for every world, attacker, action, tape (`_determine_attack` never reads health, the
+  health loop reads the health of ACTIVE victims only, a victim that dies ends with health exactly 0), and `attackOK_all`
+  applies to `heal w`.  `reach_step_noRaise_WInv`, `reach_first_step_noRaise` (steps that start in a `WInv` world, the
+  situation of R1) are kept as special cases.
 
-NOT proved (runtime only, judged on the implementation's trace by `RT.specRT`): the no-raise statement for steps that
-start in a world that is only `WInvWeak` (after a runner was taken off the grid by hand): missing is that
-`SelectiveAttackActor.process_action` RETURNS for an in-space action in such a world (`attackOK_all` is for `WInv`); the model's own
-trace satisfies `RT.specRT` (`examples_hist` for this class); that stored positions of inactive agents stay inside the grid
-(a hypothesis of `reach_observations_in_space` for inactive agents).
+* **C03 / C02, positions** `reach_inactive_positions_in_grid`: in every reachable state the stored position of EVERY agent —
+  active, dead or deactivated by hand — is a grid cell; so `reach_observations_in_space_all`: the observation of every agent
+  lies in the declared space (`reach_observations_in_space` without its hypothesis on the agent).
+
+* **the judge** `reach_hist`: under `RT.rtPre` the model's own trace satisfies `RT.specRT` for every history and all tapes
+  (the `examples_hist` of this class; steps are arbitrary).
+
+* **getters** `reach_getters_total`: in every reachable state `get_reward` of a learning agent, `get_done` of an agent of the
+  simulation and `get_all_done` return.
+
+Nothing of DESIGN.md 11.2 "Not proved" is left open for this class (the tie to the real code stays differential: model =
+implementation call by call, and the judge on the implementation's trace).
 -/
 namespace Abmarl
 open World
@@ -555,10 +571,9 @@ order) — then `step` returns, for every tape.  `WInv` holds after every `reset
 target; the attack loop runs first and preserves it, so the library's `attackOK_all` applies to every attack of the step;
 the move loop (with the hand-written removal) and the entropy loop only need `WInvWeak`.
 
-**What is missing for every reachable state** (`WInvWeak` only, once a runner was taken off the grid by hand): that
-`SelectiveAttackActor.process_action` RETURNS for an in-space action in a `WInvWeak` world — `attackOK_all`
-(Props/C11.lean) is proved for `WInv` worlds; that its result keeps `WInvWeak` is proved (`RT.processAttack_weak`).  At run
-time the judge's `RT.stepMustNotRaise` (no such restriction) is evaluated on every step of the streams. -/
+**For every reachable state** (`WInvWeak` only, once a runner was taken off the grid by hand) see `reach_step_noRaise` /
+`reach_stepMustNotRaise_returns` below: `process_action` of the attack actors returns in `WInvWeak` worlds too
+(`RT.processAttack_ok_weak`); this theorem is kept as the special case it was. -/
 theorem reach_step_noRaise_WInv (cfg : RT.Cfg) (w0 : World) (hcfg : CfgOK w0) (s : Ex.St) (r : Ex.Ledger)
     (hr : s.rewards = some r) (hI : s.w.WInv = true) (hF : SFrame w0 s.w) (hL : Ex.LedgerFull cfg.toEx w0.n r)
     (acts : List (Aid × Ex.Act)) (hS : ∀ x ∈ acts, Ex.ItemOK cfg.toEx w0 x) :
@@ -595,6 +610,293 @@ example : ∃ s'', RT.step exRTCfg { exRTState with tape := [] } exRTActs = .ok 
       · exact ⟨by decide, by decide, by decide +kernel, fun _ h => by cases h⟩
       · exact ⟨by decide, by decide, by decide +kernel, fun _ h => by cases h⟩
       · exact ⟨by decide, by decide, by decide +kernel, fun _ _ => by decide +kernel⟩) []
+
+/-! ## C02: a step with in-space actions does not raise — in EVERY reachable state (`WInvWeak` only) -/
+
+/-- every state reached by any history is `RT.GoodH`: `WInvWeak`, constructed static part, a reward entry for every
+learning agent, every stored position a grid cell -/
+theorem RT.reachable_goodH (cfg : RT.Cfg) (w0 : World) (hcfg : CfgOK w0) (hfresh : w0.vitalsAlive = true)
+    (t0 : Tape) (ops : List Ex.EOp) (hops : ∀ op ∈ ops, RT.OpOK cfg w0 op) :
+    RT.GoodH cfg w0 (RT.runOps cfg { w := w0, tape := t0 } ops).2 :=
+  RT.runOps_goodH hcfg hfresh ops _ hops (RT.goodH_init cfg w0 t0)
+
+/-- **`stepMustNotRaise ⇒ returns`, with no hypothesis at all**: for EVERY world `w` (reachable or not), reward dict `r`,
+action dict and tape — if the judge's Boolean `RT.stepMustNotRaise cfg w r acts` is true (the world satisfies `WInvWeak`;
+every item is a point of the declared action space of a learning agent of the simulation, alive or not; every learning agent
+has a reward entry) then `ReachTheTargetSim.step` RETURNS.  No `WInv`: the world may hold any number of runners that were
+taken off the grid by hand (inactive with positive health).  The missing lemma of DESIGN.md 11.2 — `process_action` of
+every attack actor returns for an in-space action in a `WInvWeak` world — is `RT.processAttack_ok_weak`
+(Lemmas/ReachHeal.lean: `attackOK_all` transported through `RT.heal`; the attack code reads the health of ACTIVE candidates
+only, `RT.processAttack_heal`). -/
+theorem reach_stepMustNotRaise_returns (cfg : RT.Cfg) (w : World) (r : Ex.Ledger) (acts : List (Aid × Ex.Act)) (t : Tape)
+    (h : RT.stepMustNotRaise cfg w r acts = true) :
+    ∃ s', RT.step cfg { w := w, rewards := some r, tape := t } acts = .ok s' := by
+  obtain ⟨hP, hS⟩ := RT.items_of_stepMustNotRaise h
+  obtain ⟨p, hp, _⟩ := RT.stepPS_ok_weak (cfg := cfg) (w0 := w) ⟨w, r, t⟩ acts ⟨hP.weak, hP.frame, hP.full⟩ hS
+  exact ⟨{ w := p.w, rewards := some p.r, tape := p.t }, by simp only [RT.step, hp]⟩
+
+/-- … in the form the judge uses it: a `step` of the model that raises was made outside `stepMustNotRaise` -/
+theorem reach_step_error_outside (cfg : RT.Cfg) (w : World) (r : Ex.Ledger) (acts : List (Aid × Ex.Act)) (t : Tape)
+    (e : GErr) (h : RT.step cfg { w := w, rewards := some r, tape := t } acts = .error e) :
+    RT.stepMustNotRaise cfg w r acts = false := by
+  cases hm : RT.stepMustNotRaise cfg w r acts with
+  | false => rfl
+  | true =>
+    obtain ⟨s', hs'⟩ := reach_stepMustNotRaise_returns cfg w r acts t hm
+    rw [hs'] at h; cases h
+
+/-- **a `step` with in-space actions does not raise in ANY reachable state** (C02: "every action drawn from an agent's
+declared action space is accepted and processed without error"): from the constructed world, after ANY history of resets,
+steps (ANY action dicts), observations, reward reads and done queries (once a reset has returned) — in particular after
+runners reached the target and were deactivated by hand, so that the world satisfies `WInvWeak` only —, a `step` whose
+items are points of the declared action spaces of learning agents of the simulation (`Ex.ItemOK`: alive or dead, any
+subset, any order) returns, for every tape.  `reach_step_noRaise_WInv` / `reach_first_step_noRaise` are the special cases
+of a `WInv` world. -/
+theorem reach_step_noRaise (cfg : RT.Cfg) (w0 : World) (hcfg : CfgOK w0) (hfresh : w0.vitalsAlive = true)
+    (t0 : Tape) (ops : List Ex.EOp) (hops : ∀ op ∈ ops, RT.OpOK cfg w0 op)
+    (acts : List (Aid × Ex.Act)) (hS : ∀ x ∈ acts, Ex.ItemOK cfg.toEx w0 x) (t : Tape) :
+    let s := (RT.runOps cfg { w := w0, tape := t0 } ops).2
+    s.rewards.isSome = true → ∃ s', RT.step cfg { s with tape := t } acts = .ok s' := by
+  intro s hs
+  have hG : RT.GoodH cfg w0 s := RT.reachable_goodH cfg w0 hcfg hfresh t0 ops hops
+  unfold RT.GoodH at hG
+  cases hr : s.rewards with
+  | none => rw [hr] at hs; cases hs
+  | some r =>
+    rw [hr] at hG
+    obtain ⟨hW, hF, hL, _⟩ := hG
+    obtain ⟨p, hp, _⟩ := RT.stepPS_ok_weak (cfg := cfg) (w0 := w0) ⟨s.w, r, t⟩ acts ⟨hW, hF, hL⟩ hS
+    exact ⟨{ w := p.w, rewards := some p.r, tape := p.t }, by simp only [RT.step, hp]⟩
+
+/-- the state of the examples above after runner 1 reached the target and was taken off the grid by hand: `WInvWeak`,
+not `WInv` -/
+def exRTState2 : Ex.St := (RT.runOps exRTCfg { w := exRTWorld2 } exRTOps).2
+
+/-- the hypotheses of `reach_stepMustNotRaise_returns` are inhabited by a world that violates `WInv`: in `exRTState2` the
+whole action dict `exRTActs` (an item for the deactivated runner too, the target attacking its own cell) must not raise -/
+example : exRTState2.w.WInv = false ∧ exRTState2.rewards = some [(0, -1), (1, 99), (2, -10)] ∧
+    RT.stepMustNotRaise exRTCfg exRTState2.w [(0, -1), (1, 99), (2, -10)] exRTActs = true := by
+  decide +kernel
+
+example : ∃ s', RT.step exRTCfg { w := exRTState2.w, rewards := some [(0, -1), (1, 99), (2, -10)], tape := [] } exRTActs = .ok s' :=
+  reach_stepMustNotRaise_returns _ _ _ _ _ (by decide +kernel)
+
+/-- `reach_step_noRaise` on the same history: the second step of the episode, from a world that is only `WInvWeak` -/
+example : ∃ s', RT.step exRTCfg { exRTState2 with tape := [] } exRTActs = .ok s' :=
+  reach_step_noRaise exRTCfg exRTWorld2 ((cfgOKb_iff _).mp (by decide +kernel)) (by decide +kernel) [] exRTOps
+    (fun op hop => by
+      simp only [exRTOps, List.mem_cons, List.mem_nil_iff, or_false] at hop
+      rcases hop with rfl | rfl
+      · exact Ex.resetOK_of_b (by decide +kernel)
+      · trivial)
+    exRTActs (fun x hx => by
+      simp only [exRTActs, List.mem_cons, List.mem_nil_iff, or_false] at hx
+      rcases hx with rfl | rfl | rfl
+      · exact ⟨by decide, by decide, by decide +kernel, fun _ h => by cases h⟩
+      · exact ⟨by decide, by decide, by decide +kernel, fun _ h => by cases h⟩
+      · exact ⟨by decide, by decide, by decide +kernel, fun _ _ => by decide +kernel⟩) [] (by decide +kernel)
+
+/-- … and what that second step does: the target's attack finds nobody (−0.1), runner 0 stays, the deactivated runner 1 is
+skipped by all loops but the entropy loop -/
+example : (match RT.step exRTCfg { exRTState2 with tape := [] } exRTActs with
+    | .ok s' => s'.rewards == some [(0, -2), (1, 98), (2, -20)] && s'.w.WInvWeak && !s'.w.WInv
+    | .error _ => false) = true := by
+  decide +kernel
+
+/-! ## C03 / C02: stored positions of inactive agents stay inside the grid -/
+
+/-- **every agent's stored position is a grid cell, in every reachable state** — active, dead or deactivated by hand:
+after ANY history as in `reach_reachable_WInvWeak` (once a reset has returned), `agent.position` of every agent of the
+simulation lies inside the grid.  (`WInvWeak` says so for ACTIVE agents only; an agent that is killed or taken off the grid
+keeps the position it had: `RT.processAttack_pos`, `RT.takeOff_pos` — no component call of `step` writes the position of an
+inactive agent, and `reset` places everybody anew.) -/
+theorem reach_inactive_positions_in_grid (cfg : RT.Cfg) (w0 : World) (hcfg : CfgOK w0) (hfresh : w0.vitalsAlive = true)
+    (t0 : Tape) (ops : List Ex.EOp) (hops : ∀ op ∈ ops, RT.OpOK cfg w0 op) :
+    let s := (RT.runOps cfg { w := w0, tape := t0 } ops).2
+    s.rewards.isSome = true → ∀ a < w0.n, s.w.inGrid (s.w.stOf a).pos = true := by
+  intro s hs a ha
+  have hG : RT.GoodH cfg w0 s := RT.reachable_goodH cfg w0 hcfg hfresh t0 ops hops
+  unfold RT.GoodH at hG
+  cases hr : s.rewards with
+  | none => rw [hr] at hs; cases hs
+  | some r =>
+    rw [hr] at hG
+    exact hG.2.2.2 a (by rw [sframe_n hG.2.1]; exact ha)
+
+/-- **observations of EVERY agent lie in the declared space, in every reachable state**: `reach_observations_in_space`
+without its hypothesis on the agent (active, or stored position inside the grid) — discharged by
+`reach_inactive_positions_in_grid` -/
+theorem reach_observations_in_space_all (cfg : RT.Cfg) (w0 : World) (hcfg : CfgOK w0) (hfresh : w0.vitalsAlive = true)
+    (t0 : Tape) (ops : List Ex.EOp) (hops : ∀ op ∈ ops, RT.OpOK cfg w0 op)
+    (henc : ∀ b < w0.n, 0 < w0.encOf b) (hammo : ∀ b < w0.n, 0 ≤ (w0.cfgOf b).initAmmo) (a : Aid) (ha : a < w0.n) :
+    let s := (RT.runOps cfg { w := w0, tape := t0 } ops).2
+    s.rewards.isSome = true →
+    ∀ t, ∃ o s', Ex.getObs cfg.toEx { s with tape := t } a = .ok (o, s') ∧
+      ∀ p ∈ o, p.1 = "position_centered_encoding" ∧
+        Observers.declared s.w a (.centered cfg.observeSelf) p.2 = true := by
+  intro s hs t
+  exact reach_observations_in_space cfg w0 hcfg hfresh t0 ops hops henc hammo a ha hs
+    (Or.inr (reach_inactive_positions_in_grid cfg w0 hcfg hfresh t0 ops hops hs a ha)) t
+
+/-- inhabited and not vacuous: in `exRTState2` runner 1 is inactive (taken off the grid by hand), in no cell, and its stored
+position is the target's cell -/
+example : (exRTState2.w.stOf 1).active = false ∧ exRTState2.w.cells = [[], [2], [0]] ∧
+    (exRTState2.w.stOf 1).pos = (0, 1) ∧
+    ∀ a < exRTWorld2.n, exRTState2.w.inGrid (exRTState2.w.stOf a).pos = true :=
+  ⟨by decide +kernel, by decide +kernel, by decide +kernel,
+   reach_inactive_positions_in_grid exRTCfg exRTWorld2 ((cfgOKb_iff _).mp (by decide +kernel)) (by decide +kernel) [] exRTOps
+    (fun op hop => by
+      simp only [exRTOps, List.mem_cons, List.mem_nil_iff, or_false] at hop
+      rcases hop with rfl | rfl
+      · exact Ex.resetOK_of_b (by decide +kernel)
+      · trivial)
+    (by decide +kernel)⟩
+
+/-! ## the judge: the model's own trace satisfies `RT.specRT` -/
+
+/-- **`examples_hist` for `ReachTheTargetSim`**: under the class's precondition `RT.rtPre` (the world as the constructors
+leave it: `cfgOKb`, everybody alive with legal vitals, positive encodings, non-negative initial ammunition; the history starts
+with a reset; every reset in an order `RT.OpOK` covers — NOTHING about the steps: any action dicts, in the declared spaces or
+not, for live or dead or unknown agents) the trace of the model satisfies the judge `RT.specRT`, the Boolean the driver
+evaluates on the implementation's trace (op `gexample`, configuration `(reach …)`), for EVERY history and all tapes: the
+world after a successful `reset` satisfies `WInv` and after a successful `step` `WInvWeak`, both with the constructed static
+part; `reset` leaves a zero entry per learning agent, `step` keeps the key list of the reward dict; every observation that is
+returned — also of a dead or hand-deactivated agent — has exactly the declared keys, each value in the declared space; the
+getters change neither world nor reward dict, `get_reward` is read-and-reset, the done getters return the class's own rules
+(`RT.doneW`, `RT.onlyLeft`) on the current world; a `step` inside `RT.stepMustNotRaise` (a `WInvWeak` world, items in the
+declared action spaces of learning agents, a full reward dict) does not raise; the trace ends with the first call that
+raises. -/
+theorem reach_hist (cfg : RT.Cfg) (w0 : World) (t0 : Tape) (ops : List Ex.EOp)
+    (hpre : RT.rtPre cfg w0 ops = true) :
+    RT.specRT cfg w0 (Ex.zipOps ops (RT.runOps cfg { w := w0, tape := t0 } ops).1) = true := by
+  obtain ⟨hW, hops⟩ := RT.rtPre_hyps hpre
+  exact RT.specFrom_model hW ops { w := w0, tape := t0 } hops (RT.goodH_init cfg w0 t0)
+
+/-- a history with everything in it: reset; the step in which runner 1 reaches the target and is taken off the grid; its
+reward, its done flag; an observation of the deactivated runner; a second step from the `WInvWeak`-only world with an item for
+the deactivated runner; a step with an action OUTSIDE the declared space for an agent that does not exist (raises: the trace
+ends) -/
+def exRTHistOps : List Ex.EOp :=
+  exRTOps ++ [.rew 1, .done 1, .allDone, .obs 1 [], .step exRTActs [], .rew 2, .obs 0 [],
+    .step [(7, { move := (5, 5), attack := .grid [] })] [], .rew 0]
+
+/-- the precondition is inhabited, the trace is the expected one … -/
+example : RT.rtPre exRTCfg exRTWorld2 exRTHistOps = true ∧
+    ((RT.runOps exRTCfg { w := exRTWorld2 } exRTHistOps).1.map fun e => (e.res.isErr, e.w.WInv, e.w.WInvWeak)) =
+      [(false, true, true), (false, false, true), (false, false, true), (false, false, true), (false, false, true),
+       (false, false, true), (false, false, true), (false, false, true), (false, false, true), (true, false, true)] := by
+  decide +kernel
+
+/-- … and it passes the judge, by the theorem -/
+example : RT.specRT exRTCfg exRTWorld2
+    (Ex.zipOps exRTHistOps (RT.runOps exRTCfg { w := exRTWorld2 } exRTHistOps).1) = true :=
+  reach_hist _ _ _ _ (by decide +kernel)
+
+/-- the judge is not trivially true: it rejects the trace in which the reward for reaching the target is delivered as 100
+instead of 99, and the trace in which the second step (made inside `stepMustNotRaise`, from the `WInvWeak`-only world) is
+reported to have raised -/
+example :
+    let tr := (RT.runOps exRTCfg { w := exRTWorld2 } exRTHistOps).1
+    RT.specRT exRTCfg exRTWorld2 (Ex.zipOps exRTHistOps (tr.modify 2 fun e => { e with res := .int 100 })) = false ∧
+    RT.specRT exRTCfg exRTWorld2
+      (Ex.zipOps exRTHistOps ((tr.take 7).modify 6 fun _ => { (tr.getD 5 ⟨.unit, exRTWorld2, none⟩) with res := .err .keyError })) = false := by
+  decide +kernel
+
+/-! ## the same for the states the managers reach through the `SimIface` instance; the getters are total -/
+
+/-- every state a manager can drive the `SimIface` instance into is `RT.GoodH` (`reach_simIface_reachable` with the reward
+dict and the stored positions) -/
+theorem reach_simIface_goodH (cfg : RT.Cfg) (w0 : World) (n : Nat) (hcfg : CfgOK w0)
+    (hfresh : w0.vitalsAlive = true) (hR : Ex.ResetOK cfg.toEx w0 cfg.comps) {s : Ex.St}
+    (h : RT.Reach cfg w0 n s) : RT.GoodH cfg w0 s := by
+  induction h with
+  | init t => rfl
+  | @reset s _ ih =>
+    have hg := RT.runOp_goodH hcfg hfresh s (.reset cfg.comps s.tape) hR ih
+    simp only [RT.runOp] at hg
+    simp only [RT.toSimIface]
+    cases hr : Ex.reset cfg.toEx cfg.comps s with
+    | error e => exact ih
+    | ok s' =>
+      have hr' : Ex.reset cfg.toEx cfg.comps { s with tape := s.tape } = .ok s' := hr
+      simpa [hr'] using hg
+  | @step s acts _ ih =>
+    have hg := RT.runOp_goodH hcfg hfresh s (.step acts s.tape) trivial ih
+    simp only [RT.runOp] at hg
+    simp only [RT.toSimIface]
+    cases hr : RT.step cfg s acts with
+    | error e => exact ih
+    | ok s' =>
+      have hr' : RT.step cfg { s with tape := s.tape } acts = .ok s' := hr
+      simpa [hr'] using hg
+  | @obs s a _ ih =>
+    have := RT.runOp_goodH hcfg hfresh s (.obs a s.tape) trivial ih
+    simp only [RT.runOp] at this
+    simp only [RT.toSimIface]
+    split <;> simp_all
+  | @reward s a _ ih =>
+    have := RT.runOp_goodH hcfg hfresh s (.rew a) trivial ih
+    simp only [RT.runOp] at this
+    simp only [RT.toSimIface]
+    split <;> simp_all
+
+/-- **under the managers the totalisation of `RT.toSimIface.step` is never used for in-space actions**: in every state a
+manager can reach (any resets, steps with ANY dicts, getter calls — `WInvWeak` only), once a reset has returned, `step` of
+the model returns for every action dict whose items are points of the declared action spaces of learning agents, and the
+`SimIface` step is that result -/
+theorem reach_simIface_step_returns (cfg : RT.Cfg) (w0 : World) (n : Nat) (hcfg : CfgOK w0)
+    (hfresh : w0.vitalsAlive = true) (hR : Ex.ResetOK cfg.toEx w0 cfg.comps) {s : Ex.St}
+    (h : RT.Reach cfg w0 n s) (hs : s.rewards.isSome = true)
+    (acts : List (Aid × Ex.Act)) (hS : ∀ x ∈ acts, Ex.ItemOK cfg.toEx w0 x) :
+    RT.step cfg s acts = .ok ((RT.toSimIface cfg n).step s acts) := by
+  have hG := reach_simIface_goodH cfg w0 n hcfg hfresh hR h
+  unfold RT.GoodH at hG
+  cases hr : s.rewards with
+  | none => rw [hr] at hs; cases hs
+  | some r =>
+    rw [hr] at hG
+    obtain ⟨hW, hF, hL, _⟩ := hG
+    obtain ⟨p, hp, _⟩ := RT.stepPS_ok_weak (cfg := cfg) (w0 := w0) ⟨s.w, r, s.tape⟩ acts ⟨hW, hF, hL⟩ hS
+    have : RT.step cfg s acts = .ok { w := p.w, rewards := some p.r, tape := p.t } := by
+      simp only [RT.step, hr, hp]
+    simp only [RT.toSimIface, this]
+
+/-- **the getters do not raise in any reachable state** (`WInvWeak` only): `get_reward` of a learning agent returns (the
+reward dict has an entry for every learning agent — `step` never loses a key), `get_done` of every agent of the simulation
+and `get_all_done` return -/
+theorem reach_getters_total (cfg : RT.Cfg) (w0 : World) (hcfg : CfgOK w0) (hfresh : w0.vitalsAlive = true)
+    (t0 : Tape) (ops : List Ex.EOp) (hops : ∀ op ∈ ops, RT.OpOK cfg w0 op) (a : Aid) (ha : a < w0.n) :
+    let s := (RT.runOps cfg { w := w0, tape := t0 } ops).2
+    s.rewards.isSome = true →
+    (cfg.isLearning a = true → ∃ x s', Ex.getReward cfg.toEx s a = .ok (x, s')) ∧
+    (∃ b, RT.getDone cfg s a = .ok b) ∧ (∃ b, RT.getAllDone cfg s = .ok b) := by
+  intro s hs
+  have hG : RT.GoodH cfg w0 s := RT.reachable_goodH cfg w0 hcfg hfresh t0 ops hops
+  unfold RT.GoodH at hG
+  cases hr : s.rewards with
+  | none => rw [hr] at hs; cases hs
+  | some r =>
+    rw [hr] at hG
+    obtain ⟨_, hF, hL, _⟩ := hG
+    have ha' : ¬ s.w.n ≤ a := by rw [sframe_n hF]; exact Nat.not_le.mpr ha
+    refine ⟨fun hl => ?_, ?_, ⟨RT.onlyLeft cfg s.w, by simp only [RT.getAllDone, hr]⟩⟩
+    · have hfull := hL a ha hl
+      obtain ⟨x, hx⟩ := Option.isSome_iff_exists.mp hfull
+      exact ⟨x, { s with rewards := some (dictSet r a 0) }, by simp only [Ex.getReward, hr, Ex.rewardVal, hx]⟩
+    · simp only [RT.getDone, hr, RT.doneW, ha', if_false]
+      split
+      · exact ⟨_, rfl⟩
+      · split <;> exact ⟨_, rfl⟩
+
+/-- `reach_getters_total` in the `WInvWeak`-only state of the examples: the deactivated runner's reward, its done flag -/
+example : (∃ x s', Ex.getReward exRTCfg.toEx exRTState2 1 = .ok (x, s')) ∧ (∃ b, RT.getDone exRTCfg exRTState2 1 = .ok b) :=
+  have h := reach_getters_total exRTCfg exRTWorld2 ((cfgOKb_iff _).mp (by decide +kernel)) (by decide +kernel) [] exRTOps
+    (fun op hop => by
+      simp only [exRTOps, List.mem_cons, List.mem_nil_iff, or_false] at hop
+      rcases hop with rfl | rfl
+      · exact Ex.resetOK_of_b (by decide +kernel)
+      · trivial) 1 (by decide) (by decide +kernel)
+  ⟨h.1 (by decide), h.2.1⟩
 
 /-- the manager theorems are inhabited: a turn-based run over `exRTWorld2` -/
 example : specC01 .turnBased 3 exRTCfg.isLearning false
